@@ -309,7 +309,11 @@ func checkC04(c *Check) {
 		okF, okC := false, false
 		for _, ci := range callsNamed(inv, "(*inject.injector).fastInvoke", "(*inject.injector).callInvoke") {
 			a := ci.Common().Args
-			tOK := vCall("reflect.TypeOf", vParam(inv, 1))(a[2]) && vCall("(reflect.Type).NumIn", vCall("reflect.TypeOf", vParam(inv, 1)))(a[3])
+			if len(a) < 3 {
+				continue
+			}
+			// the arity is handed in, or read from the type by the invoke path itself (checkInvokePath)
+			tOK := vCall("reflect.TypeOf", vParam(inv, 1))(a[2]) && (len(a) == 3 || vCall("(reflect.Type).NumIn", vCall("reflect.TypeOf", vParam(inv, 1)))(a[3]))
 			if strings.HasSuffix(callName(ci.Common()), "fastInvoke") {
 				// argument is the FastInvoker assertion of f
 				ta, isTA := strip(a[1]).(*ssa.TypeAssert)
@@ -491,7 +495,9 @@ func checkInvokePath(c *Check, fn *ssa.Function, fast bool) {
 	p := c.P
 	key := p.FuncKey(fn)
 	recv := vParam(fn, 0)
-	fP, tP, nP := vParam(fn, 1), vParam(fn, 2), vParam(fn, 3)
+	fP, tP := vParam(fn, 1), vParam(fn, 2)
+	// the arity: the fourth parameter (handed in as t.NumIn() by Invoke) or t.NumIn() read here
+	nP := vOr(vParam(fn, 3), vCall("(reflect.Type).NumIn", tP))
 	// the final call
 	var F ssa.CallInstruction
 	if fast {
